@@ -71,10 +71,10 @@ Definition wrap64 (z : Z) : Z := int64_of_u64 (u64_of_int64 z).
 (* MarshalBytes / WriteBytes: varint length, then the bytes *)
 Definition marshal_bytes (v : bytes) : bytes := marshal_uint (N.of_nat (length v)) ++ v.
 
-(* UnmarshalBytes(buf): idx, uln := UnmarshalUint(buf); ln := int(uln);
+(* the dependency's xbinary.UnmarshalBytes(buf): idx, uln := UnmarshalUint(buf); ln := int(uln);
    if len(buf) < ln+idx { error }; res := buf[idx : idx+ln]
    — the slice expression panics when idx+ln < idx (negative ln, or int overflow of ln+idx) *)
-Definition unmarshal_bytes (buf : bytes) : outcome (bytes * bytes) :=
+Definition unmarshal_bytes_dep (buf : bytes) : outcome (bytes * bytes) :=
   obind (unmarshal_uint buf) (fun '(uln, rest) =>
     let idx := Z.of_nat (length buf - length rest) in
     let ln := int64_of_u64 uln in
@@ -82,6 +82,15 @@ Definition unmarshal_bytes (buf : bytes) : outcome (bytes * bytes) :=
     if (Z.of_nat (length buf) <? hi)%Z then Err
     else if (hi <? idx)%Z then Panic
     else Ok (firstn (Z.to_nat ln) rest, skipn (Z.to_nat ln) rest)).
+
+(* utils.UnmarshalBytes / UnmarshalString of /repo (pkg/utils/unmarshal.go), through which the /repo decoders
+   read every length-prefixed field: checkBytesLen reads the varint the same way and returns an error when
+   ln < 0 || ln+idx < idx, then the dependency's function is called on the same buffer *)
+Definition unmarshal_bytes (buf : bytes) : outcome (bytes * bytes) :=
+  obind (unmarshal_uint buf) (fun '(uln, rest) =>
+    let idx := Z.of_nat (length buf - length rest) in
+    let ln := int64_of_u64 uln in
+    if ((ln <? 0) || (wrap64 (ln + idx) <? idx))%Z then Err else unmarshal_bytes_dep buf).
 
 Definition writable_bytes_size (v : bytes) : nat := (writable_uint_size (N.of_nat (length v)) + length v)%nat.
 
